@@ -359,6 +359,11 @@ Lemma parse_facet_ptr (zs : list Z) :
   = Some (pc_attr 2 (gw geo_imp_facet_ptr) TyInt 1 (map (@VInt F Cx) zs)).
 Proof. apply (parse_attr_chunk _ _ _ _ _ _ 2 TyInt); [reflexivity | reflexivity | apply omap_conv_ti]. Qed.
 
+Lemma parse_cell_ptr (zs : list Z) :
+  parse_chunk (geo_attr_head geo_exp_attr_cell_ptr ++ map ti zs)
+  = Some (pc_attr 4 (gw geo_imp_cell_ptr) TyInt 1 (map (@VInt F Cx) zs)).
+Proof. apply (parse_attr_chunk _ _ _ _ _ _ 4 TyInt); [reflexivity | reflexivity | apply omap_conv_ti]. Qed.
+
 Lemma parse_fc_vertex (zs : list Z) :
   parse_chunk (geo_attr_head geo_exp_attr_fc_vertex ++ map ti zs)
   = Some (pc_attr 3 (gw (snd (fst (special 2)))) TyInt 1 (map (@VInt F Cx) zs)).
@@ -394,17 +399,18 @@ Definition pchunks (m : mesh) : list chunk :=
         ++ user_pcs 3 (aFC m))
   ++ (if isnil (mC m) then [] else
         [pc_atts 4 (zlen (mC m))]
+        ++ (if forallb (len_is 4) (mC m) then [] else [pc_attr 4 (gw geo_imp_cell_ptr) TyInt 1 (vI (ptrs_from 0 (mC m)))])
         ++ user_pcs 4 (aC m)
         ++ [pc_atts 5 (sum_len (mC m)); pc_attr 5 (nm 4) TyInt 1 (vI (concat (mC m)))]
         ++ user_pcs 5 (aCC m)
-        ++ [pc_atts 6 (sum_len (mC m)); pc_attr 6 (nm 5) TyInt 1 (vI (mAdj m))]
+        ++ [pc_atts 6 (n_cell_facets (mC m))]
+        ++ (if has_adjacency m then [pc_attr 6 (nm 5) TyInt 1 (vI (mAdj m))] else [])
         ++ user_pcs 6 (aCF m)).
 
 Definition geo_ok (m : mesh) : Prop :=
   attrs_ok (aV m) /\ attrs_ok (aE m) /\ attrs_ok (aF m) /\ attrs_ok (aFC m) /\ attrs_ok (aC m) /\ attrs_ok (aCC m)
   /\ attrs_ok (aCF m) /\ ~ In geo_imp_opp_cell (map (@a_name F Cx) (aCF m))
-  /\ (~ In geo_exp_fc_adj_name (map (@a_name F Cx) (aFC m)) /\ ~ In geo_exp_cf_adj_name (map (@a_name F Cx) (aCF m)))
-  /\ Forall (fun c => zlen c = geo_imp_default_cell) (mC m).
+  /\ (~ In geo_exp_fc_adj_name (map (@a_name F Cx) (aFC m)) /\ ~ In geo_exp_cf_adj_name (map (@a_name F Cx) (aCF m))).
 
 Lemma flat_map_fl (V : list (F * F * F)) : flat_map (fun v => map fl (v3 v)) V = map fl (flat_map (@v3 F) V).
 Proof. induction V as [|v V IH]; [reflexivity|]. cbn [flat_map]. now rewrite map_app, IH. Qed.
@@ -414,6 +420,12 @@ Proof. induction E as [|e E IH]; [reflexivity|]. cbn [flat_map]. now rewrite map
 Lemma omap_if {A B} (b : bool) (f : A -> option B) l r :
   omap f l = Some r -> omap f (if b then [] else l) = Some (if b then [] else r).
 Proof. destruct b; [reflexivity|auto]. Qed.
+
+Lemma omap_if' {A B} (b : bool) (f : A -> option B) l r :
+  omap f l = Some r -> omap f (if b then l else []) = Some (if b then r else []).
+Proof. destruct b; [auto|reflexivity]. Qed.
+Lemma Forall_if' {A} (P : A -> Prop) (b : bool) l : Forall P l -> Forall P (if b then l else []).
+Proof. destruct b; [auto|constructor]. Qed.
 
 Lemma parse_users k (l : list attr) : (k < 7)%nat -> Forall attr_ok l ->
   omap parse_chunk (map (geo_user_attr (user_cont k)) l) = Some (user_pcs k l).
@@ -427,11 +439,11 @@ Proof.
   intros ([HV _] & [HE _] & [HF _] & [HFC _] & [HC _] & [HCC _] & [HCF _] & _).
   unfold Geo.geo_chunks, pchunks.
   rewrite flat_map_fl, flat_map_ti.
-  repeat (first [ apply omap_app | apply omap_if ]);
+  repeat (first [ apply omap_app | apply omap_if | apply omap_if' ]);
     try (apply parse_users; [lia|assumption]);
     cbn [omap];
     rewrite ?parse_head, ?parse_atts_V, ?parse_atts_E, ?parse_atts_F, ?parse_atts_FC, ?parse_atts_C, ?parse_atts_CC, ?parse_atts_CF,
-            ?parse_point, ?parse_edge_vertex, ?parse_facet_ptr, ?parse_fc_vertex, ?parse_cc_vertex, ?parse_cf_adj;
+            ?parse_point, ?parse_edge_vertex, ?parse_facet_ptr, ?parse_cell_ptr, ?parse_fc_vertex, ?parse_cc_vertex, ?parse_cf_adj;
     reflexivity.
 Qed.
 
@@ -470,7 +482,7 @@ Lemma chunks_shaped (m : mesh) : geo_ok m -> Forall chunk_shaped (geo_chunks m).
 Proof.
   intros ([HV _] & [HE _] & [HF _] & [HFC _] & [HC _] & [HCC _] & [HCF _] & _).
   unfold Geo.geo_chunks. rewrite flat_map_fl, flat_map_ti.
-  repeat (first [ apply Forall_app; split | apply Forall_if ]);
+  repeat (first [ apply Forall_app; split | apply Forall_if | apply Forall_if' ]);
     try (apply users_shaped; [lia|assumption]);
     repeat (apply Forall_cons); try apply Forall_nil;
     try (apply attr_head_shaped; [ cbn; split; [reflexivity | repeat constructor] | first [apply body_ti | apply body_fl] ]);
@@ -489,9 +501,14 @@ Definition size_step (acc : list (option Z * Z)) (c : chunk) : list (option Z * 
 Lemma size_users k l acc : fold_left size_step (user_pcs k l) acc = acc.
 Proof. revert acc. induction l as [|a l IH]; intros acc; [reflexivity|]. cbn [user_pcs map fold_left]. apply IH. Qed.
 
+Lemma size_opt (b : bool) c acc : ck_type c = 1 -> fold_left size_step (if b then [] else [c]) acc = acc.
+Proof. intros H. destruct b; [reflexivity|]. cbn. unfold size_step. now rewrite H. Qed.
+Lemma size_opt' (b : bool) c acc : ck_type c = 1 -> fold_left size_step (if b then [c] else []) acc = acc.
+Proof. intros H. destruct b; [|reflexivity]. cbn. unfold size_step. now rewrite H. Qed.
+
 Lemma sizes_pchunks (m : mesh) :
   sizes_of (pchunks m) =
-    (if isnil (mC m) then [] else [(Some 6, sum_len (mC m)); (Some 5, sum_len (mC m)); (Some 4, zlen (mC m))])
+    (if isnil (mC m) then [] else [(Some 6, n_cell_facets (mC m)); (Some 5, sum_len (mC m)); (Some 4, zlen (mC m))])
     ++ (if isnil (mF m) then [] else [(Some 3, sum_len (mF m)); (Some 2, zlen (mF m))])
     ++ (if isnil (mE m) then [] else [(Some 1, zlen (mE m))])
     ++ [(Some 0, zlen (mV m))].
@@ -499,9 +516,9 @@ Proof.
   unfold Geo.sizes_of, pchunks. change (fun acc c => if ck_type c =? 2 then (ck_cont c, ck_n c) :: acc else acc) with size_step.
   rewrite !fold_left_app. cbn [fold_left]. rewrite size_users.
   destruct (isnil (mE m)); destruct (isnil (mF m)); destruct (isnil (mC m));
-    cbn [fold_left app]; rewrite ?fold_left_app; cbn [fold_left app]; rewrite ?size_users;
-    try (destruct (forallb (len_is 3) (mF m))); cbn [fold_left app]; rewrite ?fold_left_app; cbn [fold_left]; rewrite ?size_users;
-    cbn [fold_left app]; rewrite ?fold_left_app; cbn [fold_left]; rewrite ?size_users; reflexivity.
+    repeat (first [ rewrite fold_left_app | rewrite size_users | rewrite size_opt by reflexivity | rewrite size_opt' by reflexivity
+                  | progress cbn [fold_left app] ]);
+    reflexivity.
 Qed.
 
 Lemma isnil_true {A} (l : list A) : isnil l = true -> l = [].
@@ -570,12 +587,18 @@ Qed.
 Lemma omap_aval_int_vI zs : omap (@aval_int F Cx) (vI zs) = Some zs.
 Proof. unfold vI. rewrite omap_map. rewrite (omap_ext_some _ (fun z => z)); [now rewrite map_id|]. reflexivity. Qed.
 
+Definition facet_ptrs (m : mesh) : list Z * list Z :=
+  if isnil (mF m) || forallb (len_is 3) (mF m) then ([], []) else (map zlen (mF m), ptrs_from 0 (mF m)).
+Definition cell_ptrs (m : mesh) : list Z * list Z :=
+  if isnil (mC m) || forallb (len_is 4) (mC m) then ([], []) else (map zlen (mC m), ptrs_from 0 (mC m)).
+
 Lemma ptr_pass_pchunks (m : mesh) : geo_ok m ->
   size_of sizes 2 = zlen (mF m) -> size_of sizes 3 = sum_len (mF m) ->
+  size_of sizes 4 = zlen (mC m) -> size_of sizes 5 = sum_len (mC m) ->
   fold_left pstep (pchunks m) (Some ([], [], [], []))
-  = Some (if isnil (mF m) || forallb (len_is 3) (mF m) then ([], [], [], []) else (map zlen (mF m), ptrs_from 0 (mF m), [], [])).
+  = Some (fst (facet_ptrs m), snd (facet_ptrs m), fst (cell_ptrs m), snd (cell_ptrs m)).
 Proof.
-  intros ([HV _] & [HE _] & [HF _] & [HFC _] & [HC _] & [HCC _] & [HCF _] & _) S2 S3.
+  intros ([HV _] & [HE _] & [HF _] & [HFC _] & [HC _] & [HCC _] & [HCF _] & _) S2 S3 S4 S5.
   unfold pchunks. rewrite !fold_left_app.
   cbn [fold_left]. rewrite (pstep_skip_list _ _ (users_not_ptr 0 _ HV)).
   change (pstep (pstep (pstep (Some ([], [], [], [])) pc_head) (pc_atts 0 (zlen (mV m))))
@@ -585,35 +608,54 @@ Proof.
   { intros st. destruct (isnil (mE m)); [reflexivity|]. rewrite fold_left_app. cbn [fold_left].
     rewrite (pstep_skip_list _ _ (users_not_ptr 1 _ HE)). rewrite !pstep_skip by reflexivity. reflexivity. }
   rewrite HEb.
-  assert (HCb : forall st, fold_left pstep (if isnil (mC m) then [] else
-        [pc_atts 4 (zlen (mC m))] ++ user_pcs 4 (aC m)
-        ++ [pc_atts 5 (sum_len (mC m)); pc_attr 5 (nm 4) TyInt 1 (vI (concat (mC m)))] ++ user_pcs 5 (aCC m)
-        ++ [pc_atts 6 (sum_len (mC m)); pc_attr 6 (nm 5) TyInt 1 (vI (mAdj m))] ++ user_pcs 6 (aCF m)) st = st).
-  { intros st. destruct (isnil (mC m)); [reflexivity|]. rewrite !fold_left_app. cbn [fold_left].
-    rewrite (pstep_skip_list _ _ (users_not_ptr 6 _ HCF)).
-    rewrite (pstep_skip _ (pc_attr 6 _ _ _ _)) by reflexivity. rewrite (pstep_skip _ (pc_atts 6 _)) by reflexivity.
+  assert (HFb : forall c0 d0, fold_left pstep (if isnil (mF m) then [] else
+        [pc_atts 2 (zlen (mF m))]
+        ++ (if forallb (len_is 3) (mF m) then [] else [pc_attr 2 (gw geo_imp_facet_ptr) TyInt 1 (vI (ptrs_from 0 (mF m)))])
+        ++ user_pcs 2 (aF m)
+        ++ [pc_atts 3 (sum_len (mF m)); pc_attr 3 (nm 2) TyInt 1 (vI (concat (mF m)))]
+        ++ user_pcs 3 (aFC m)) (Some ([], [], c0, d0)) = Some (fst (facet_ptrs m), snd (facet_ptrs m), c0, d0)).
+  { intros c0 d0. unfold facet_ptrs. destruct (isnil (mF m)) eqn:EF; [reflexivity|]. cbn [orb].
+    rewrite !fold_left_app. cbn [fold_left]. rewrite (pstep_skip _ (pc_atts 2 _)) by reflexivity.
+    destruct (forallb (len_is 3) (mF m)) eqn:Etri; cbn [fold_left fst snd].
+    - rewrite (pstep_skip_list _ _ (users_not_ptr 2 _ HF)).
+      rewrite (pstep_skip _ (pc_atts 3 _)) by reflexivity. rewrite (pstep_skip _ (pc_attr 3 _ _ _ _)) by reflexivity.
+      rewrite (pstep_skip_list _ _ (users_not_ptr 3 _ HFC)). reflexivity.
+    - assert (Hp : pstep (Some ([], [], c0, d0)) (pc_attr 2 (gw geo_imp_facet_ptr) TyInt 1 (vI (ptrs_from 0 (mF m))))
+               = Some (map zlen (mF m), ptrs_from 0 (mF m), c0, d0)).
+      { unfold pstep. change ((ck_type (pc_attr 2 (gw geo_imp_facet_ptr) TyInt 1 (vI (ptrs_from 0 (mF m)))) =? 1)
+                              && name_is (pc_attr 2 (gw geo_imp_facet_ptr) TyInt 1 (vI (ptrs_from 0 (mF m)))) geo_imp_facet_ptr) with true.
+        cbn iota. cbn [ck_data pc_attr]. rewrite omap_aval_int_vI, S2, S3, sizes_from_ptr_ok; [reflexivity|].
+        destruct (mF m); [discriminate|discriminate]. }
+      rewrite Hp.
+      rewrite (pstep_skip_list _ _ (users_not_ptr 2 _ HF)).
+      rewrite (pstep_skip _ (pc_atts 3 _)) by reflexivity. rewrite (pstep_skip _ (pc_attr 3 _ _ _ _)) by reflexivity.
+      rewrite (pstep_skip_list _ _ (users_not_ptr 3 _ HFC)). reflexivity. }
+  rewrite HFb.
+  unfold cell_ptrs. destruct (isnil (mC m)) eqn:EC; [reflexivity|]. cbn [orb].
+  rewrite !fold_left_app. cbn [fold_left]. rewrite (pstep_skip _ (pc_atts 4 _)) by reflexivity.
+  assert (Htail : forall st, fold_left pstep (user_pcs 6 (aCF m))
+      (fold_left pstep (if has_adjacency m then [pc_attr 6 (nm 5) TyInt 1 (vI (mAdj m))] else [])
+         (pstep (fold_left pstep (user_pcs 5 (aCC m))
+            (pstep (pstep (fold_left pstep (user_pcs 4 (aC m)) st) (pc_atts 5 (sum_len (mC m))))
+               (pc_attr 5 (nm 4) TyInt 1 (vI (concat (mC m)))))) (pc_atts 6 (n_cell_facets (mC m))))) = st).
+  { intros st. rewrite (pstep_skip_list _ _ (users_not_ptr 6 _ HCF)).
+    assert (Ha : forall st', fold_left pstep (if has_adjacency m then [pc_attr 6 (nm 5) TyInt 1 (vI (mAdj m))] else []) st' = st').
+    { intros st'. destruct (has_adjacency m); [|reflexivity]. cbn [fold_left]. now rewrite pstep_skip by reflexivity. }
+    rewrite Ha. rewrite (pstep_skip _ (pc_atts 6 _)) by reflexivity.
     rewrite (pstep_skip_list _ _ (users_not_ptr 5 _ HCC)).
     rewrite (pstep_skip _ (pc_attr 5 _ _ _ _)) by reflexivity. rewrite (pstep_skip _ (pc_atts 5 _)) by reflexivity.
-    rewrite (pstep_skip_list _ _ (users_not_ptr 4 _ HC)).
-    rewrite (pstep_skip _ (pc_atts 4 _)) by reflexivity. reflexivity. }
-  rewrite HCb.
-  destruct (isnil (mF m)) eqn:EF; [reflexivity|]. cbn [orb].
-  rewrite !fold_left_app. cbn [fold_left].
-  rewrite (pstep_skip _ (pc_atts 2 _)) by reflexivity.
-  destruct (forallb (len_is 3) (mF m)) eqn:Etri; cbn [fold_left].
-  - rewrite (pstep_skip_list _ _ (users_not_ptr 2 _ HF)).
-    rewrite (pstep_skip _ (pc_atts 3 _)) by reflexivity. rewrite (pstep_skip _ (pc_attr 3 _ _ _ _)) by reflexivity.
-    rewrite (pstep_skip_list _ _ (users_not_ptr 3 _ HFC)). reflexivity.
-  - assert (Hp : pstep (Some ([], [], [], [])) (pc_attr 2 (gw geo_imp_facet_ptr) TyInt 1 (vI (ptrs_from 0 (mF m))))
-               = Some (map zlen (mF m), ptrs_from 0 (mF m), [], [])).
-    { unfold pstep. change ((ck_type (pc_attr 2 (gw geo_imp_facet_ptr) TyInt 1 (vI (ptrs_from 0 (mF m)))) =? 1)
-                              && name_is (pc_attr 2 (gw geo_imp_facet_ptr) TyInt 1 (vI (ptrs_from 0 (mF m)))) geo_imp_facet_ptr) with true.
-      cbn iota. cbn [ck_data pc_attr]. rewrite omap_aval_int_vI, S2, S3, sizes_from_ptr_ok; [reflexivity|].
-      destruct (mF m); [discriminate|discriminate]. }
-    rewrite Hp.
-    rewrite (pstep_skip_list _ _ (users_not_ptr 2 _ HF)).
-    rewrite (pstep_skip _ (pc_atts 3 _)) by reflexivity. rewrite (pstep_skip _ (pc_attr 3 _ _ _ _)) by reflexivity.
-    rewrite (pstep_skip_list _ _ (users_not_ptr 3 _ HFC)). reflexivity.
+    apply (pstep_skip_list _ _ (users_not_ptr 4 _ HC)). }
+  destruct (forallb (len_is 4) (mC m)) eqn:Etet; cbn [fold_left fst snd].
+  - apply Htail.
+  - assert (Hp : pstep (Some (fst (facet_ptrs m), snd (facet_ptrs m), [], [])) (pc_attr 4 (gw geo_imp_cell_ptr) TyInt 1 (vI (ptrs_from 0 (mC m))))
+               = Some (fst (facet_ptrs m), snd (facet_ptrs m), map zlen (mC m), ptrs_from 0 (mC m))).
+    { unfold pstep. change ((ck_type (pc_attr 4 (gw geo_imp_cell_ptr) TyInt 1 (vI (ptrs_from 0 (mC m)))) =? 1)
+                              && name_is (pc_attr 4 (gw geo_imp_cell_ptr) TyInt 1 (vI (ptrs_from 0 (mC m)))) geo_imp_facet_ptr) with false.
+      change ((ck_type (pc_attr 4 (gw geo_imp_cell_ptr) TyInt 1 (vI (ptrs_from 0 (mC m)))) =? 1)
+                              && name_is (pc_attr 4 (gw geo_imp_cell_ptr) TyInt 1 (vI (ptrs_from 0 (mC m)))) geo_imp_cell_ptr) with true.
+      cbn iota. cbn [ck_data pc_attr]. rewrite omap_aval_int_vI, S4, S5, sizes_from_ptr_ok; [reflexivity|].
+      destruct (mC m); [discriminate|discriminate]. }
+    rewrite Hp. apply Htail.
 Qed.
 End PtrPass.
 
@@ -801,6 +843,12 @@ Proof.
   change (existsb (name_is (pc_attr 2 (gw geo_imp_facet_ptr) TyInt 1 zs)) geo_imp_skip) with true. reflexivity.
 Qed.
 
+Lemma step_cptr r zs : gs r (pc_attr 4 (gw geo_imp_cell_ptr) TyInt 1 zs) = Some r.
+Proof.
+  unfold gs, ptrs, Geo.geo_step. spec_eval. cbn [pc_attr ck_type]. change (negb (1 =? 1)) with false. cbn iota.
+  change (existsb (name_is (pc_attr 4 (gw geo_imp_cell_ptr) TyInt 1 zs)) geo_imp_skip) with true. reflexivity.
+Qed.
+
 Lemma step_faces V0 E0 F0 C0 a0 a1 a2 a3 a4 a5 a6 :
   gs (mkraw V0 E0 F0 C0 a0 a1 a2 a3 a4 a5 a6) (pc_attr 3 (nm 2) TyInt 1 (vI (concat (mF m))))
   = Some (mkraw V0 E0 (F0 ++ mF m) C0 a0 a1 a2 a3 a4 a5 a6).
@@ -838,28 +886,15 @@ Proof.
   intros H. apply Forall_forall. intros e He. rewrite forallb_forall in H. specialize (H e He). unfold len_is in H. lia.
 Qed.
 
-Lemma final_ptrs (m : mesh) sizes : geo_ok m ->
-  size_of sizes 2 = zlen (mF m) -> size_of sizes 4 = zlen (mC m) ->
-  (let '(ncf, fptr, ncc, cptr) :=
-       (if isnil (mF m) || forallb (len_is 3) (mF m) then (@nil Z, @nil Z, @nil Z, @nil Z)
-        else (map zlen (mF m), ptrs_from 0 (mF m), [], [])) in
-   let '(ncf, fptr) := if isnil ncf && (size_of sizes 2 >? 0) then default_sizes geo_imp_default_facet (size_of sizes 2) else (ncf, fptr) in
-   let '(ncc, cptr) := if isnil ncc && (size_of sizes 4 >? 0) then default_sizes geo_imp_default_cell (size_of sizes 4) else (ncc, cptr) in
-   (ncf, fptr, ncc, cptr))
-  = (map zlen (mF m), ptrs_from 0 (mF m), map zlen (mC m), ptrs_from 0 (mC m)).
+Lemma final_sizes k (els : list (list Z)) :
+  let raw := if isnil els || forallb (len_is k) els then (@nil Z, @nil Z) else (map zlen els, ptrs_from 0 els) in
+  (if isnil (fst raw) && (zlen els >? 0) then default_sizes k (zlen els) else raw) = (map zlen els, ptrs_from 0 els).
 Proof.
-  intros (_ & _ & _ & _ & _ & _ & _ & _ & _ & HC) S2 S4. rewrite S2, S4.
-  assert (HCs : (if zlen (mC m) >? 0 then default_sizes geo_imp_default_cell (zlen (mC m)) else ([], []))
-                = (map zlen (mC m), ptrs_from 0 (mC m))).
-  { destruct (mC m) as [|c C] eqn:EC; [reflexivity|].
-    destruct (zlen (c :: C) >? 0) eqn:E; [|unfold zlen in E; cbn in E; lia].
-    now apply default_sizes_regular. }
-  destruct (mF m) as [|f Fs] eqn:EF.
-  - cbn [isnil orb andb zlen length Z.of_nat Z.gtb Z.compare]. rewrite HCs. reflexivity.
-  - cbn [isnil orb]. destruct (forallb (len_is 3) (f :: Fs)) eqn:Etri.
-    + cbn [isnil andb]. destruct (zlen (f :: Fs) >? 0) eqn:E; [|unfold zlen in E; cbn in E; lia].
-      rewrite (default_sizes_regular geo_imp_default_facet (f :: Fs)) by (now apply forallb_len_Forall). rewrite HCs. reflexivity.
-    + cbn [map isnil andb]. rewrite HCs. reflexivity.
+  cbv zeta. destruct els as [|e els]; [reflexivity|]. cbn [isnil orb].
+  destruct (forallb (len_is k) (e :: els)) eqn:Ereg.
+  - cbn [fst isnil andb]. destruct (zlen (e :: els) >? 0) eqn:E; [|unfold zlen in E; cbn in E; lia].
+    apply default_sizes_regular. now apply forallb_len_Forall.
+  - cbn [fst map isnil andb]. reflexivity.
 Qed.
 
 Theorem geo_roundtrip (m : mesh) : geo_ok m -> parse_geo (print_geo m) = Some (vocab_geo m).
@@ -868,15 +903,14 @@ Proof.
   rewrite (chunks_concat _ (chunks_shaped m Hok)), (parse_chunks_ok m Hok).
   destruct (size_of_pchunks m) as (S1 & S2 & S3 & S4 & S5). cbv zeta in S1, S2, S3, S4, S5.
   remember (sizes_of (pchunks m)) as sizes eqn:Esz.
-  assert (HP : ptr_pass sizes (pchunks m) = Some (if isnil (mF m) || forallb (len_is 3) (mF m) then ([], [], [], [])
-              else (map zlen (mF m), ptrs_from 0 (mF m), [], []))) by (apply ptr_pass_pchunks; assumption).
-  rewrite HP. clear HP.
-  pose proof (final_ptrs m sizes Hok S2 S4) as HF.
-  destruct (if isnil (mF m) || forallb (len_is 3) (mF m) then (@nil Z, @nil Z, @nil Z, @nil Z)
-            else (map zlen (mF m), ptrs_from 0 (mF m), [], [])) as [[[ncf fptr] ncc] cptr].
-  destruct (if isnil ncf && (size_of sizes 2 >? 0) then default_sizes geo_imp_default_facet (size_of sizes 2) else (ncf, fptr)) as [ncf' fptr'].
-  destruct (if isnil ncc && (size_of sizes 4 >? 0) then default_sizes geo_imp_default_cell (size_of sizes 4) else (ncc, cptr)) as [ncc' cptr'].
-  rewrite HF. clear HF.
+  assert (HP : ptr_pass sizes (pchunks m) = Some (fst (facet_ptrs m), snd (facet_ptrs m), fst (cell_ptrs m), snd (cell_ptrs m)))
+    by (apply ptr_pass_pchunks; assumption).
+  rewrite HP. clear HP. rewrite S2, S4.
+  pose proof (final_sizes geo_imp_default_facet (mF m)) as H3. pose proof (final_sizes geo_imp_default_cell (mC m)) as H4.
+  cbv zeta in H3, H4. change geo_imp_default_facet with 3 in *. change geo_imp_default_cell with 4 in *.
+  fold (facet_ptrs m) in H3. fold (cell_ptrs m) in H4.
+  destruct (facet_ptrs m) as [ncf fptr]. destruct (cell_ptrs m) as [ncc cptr]. cbn [fst snd] in *.
+  rewrite H3, H4. clear H3 H4.
   change (run sizes (map zlen (mF m), ptrs_from 0 (mF m), map zlen (mC m), ptrs_from 0 (mC m)) (pchunks m) (raw_of Cx [] [] [] []) = Some (vocab_geo m)).
   destruct Hok as (HV & HE & HF & HFC & HC & HCC & HCF & Hopp & _).
   unfold pchunks, raw_of. cbn [app].
@@ -924,27 +958,38 @@ Proof.
   (* cells *)
   assert (HCb : forall V1 E1 F1 a0 a1 a2 a3, run sizes (map zlen (mF m), ptrs_from 0 (mF m), map zlen (mC m), ptrs_from 0 (mC m))
       (if isnil (mC m) then [] else
-         pc_atts 4 (zlen (mC m)) :: user_pcs 4 (aC m)
+         pc_atts 4 (zlen (mC m))
+         :: (if forallb (len_is 4) (mC m) then [] else [pc_attr 4 (gw geo_imp_cell_ptr) TyInt 1 (vI (ptrs_from 0 (mC m)))])
+         ++ user_pcs 4 (aC m)
          ++ pc_atts 5 (sum_len (mC m)) :: pc_attr 5 (nm 4) TyInt 1 (vI (concat (mC m))) :: user_pcs 5 (aCC m)
-         ++ pc_atts 6 (sum_len (mC m)) :: pc_attr 6 (nm 5) TyInt 1 (vI (mAdj m)) :: user_pcs 6 (aCF m))
+         ++ pc_atts 6 (n_cell_facets (mC m)) :: (if has_adjacency m then [pc_attr 6 (nm 5) TyInt 1 (vI (mAdj m))] else []) ++ user_pcs 6 (aCF m))
       (mkraw V1 E1 F1 [] a0 a1 a2 a3 [] [] [])
       = Some (mkraw V1 E1 F1 (mC m) a0 a1 a2 a3 (if isnil (mC m) then [] else map sparse_of (aC m))
                     (if isnil (mC m) then [] else map sparse_of (aCC m))
-                    (if isnil (mC m) then [] else @adjacency_sattr F Cx geo_imp_opp_cell (mAdj m) :: map sparse_of (aCF m)))).
+                    (if isnil (mC m) then [] else
+                       (if has_adjacency m then [@adjacency_sattr F Cx geo_imp_opp_cell (mAdj m)] else []) ++ map sparse_of (aCF m)))).
   { intros V1 E1 F1 a0 a1 a2 a3. destruct (isnil (mC m)) eqn:EC.
     - rewrite (isnil_true _ EC). reflexivity.
-    - rewrite (run_step _ _ _ _ _ _ (step_atts _ _ _ _ _)).
+    - rewrite (run_step _ _ _ _ _ _ (step_atts _ _ _ _ _)). rewrite run_app.
+      assert (Hp : forall r, run sizes (map zlen (mF m), ptrs_from 0 (mF m), map zlen (mC m), ptrs_from 0 (mC m))
+                (if forallb (len_is 4) (mC m) then [] else [pc_attr 4 (gw geo_imp_cell_ptr) TyInt 1 (vI (ptrs_from 0 (mC m)))]) r = Some r).
+      { intros r. destruct (forallb (len_is 4) (mC m)); [reflexivity|].
+        rewrite (run_step _ _ _ _ _ _ (step_cptr sizes m _ _)). reflexivity. }
+      rewrite Hp.
       rewrite run_app, (run_users _ _ 4 (aC m)) by (try lia; try assumption; intros a _ []).
       cbn [upd_attrs app].
       rewrite (run_step _ _ _ _ _ _ (step_atts _ _ _ _ _)).
       rewrite (run_step _ _ _ _ _ _ (step_cells sizes m S4 _ _ _ _ _ _ _ _ _ _ _)).
       rewrite run_app, (run_users _ _ 5 (aCC m)) by (try lia; try assumption; intros a _ []).
       cbn [upd_attrs app].
-      rewrite (run_step _ _ _ _ _ _ (step_atts _ _ _ _ _)).
-      rewrite (run_step _ _ _ _ _ _ (step_adj sizes m _ _ _ _ _ _ _ _ _ _)).
-      rewrite (run_users _ _ 6 (aCF m)); try lia; try assumption.
-      + reflexivity.
-      + intros a Ha. cbn [get_attrs rACF map In adjacency_sattr s_name]. intros [E|[]]. apply Hopp. rewrite E. now apply in_map. }
+      rewrite (run_step _ _ _ _ _ _ (step_atts _ _ _ _ _)). rewrite run_app.
+      destruct (has_adjacency m).
+      + rewrite (run_step _ _ _ _ _ _ (step_adj sizes m _ _ _ _ _ _ _ _ _ _)). unfold run at 1. cbn [fold_left].
+        rewrite (run_users _ _ 6 (aCF m)); try lia; try assumption.
+        * reflexivity.
+        * intros a Ha. cbn [get_attrs rACF map In adjacency_sattr s_name]. intros [E|[]]. apply Hopp. rewrite E. now apply in_map.
+      + unfold run at 1. cbn [fold_left].
+        rewrite (run_users _ _ 6 (aCF m)) by (try lia; try assumption; intros a _ []). reflexivity. }
   rewrite HCb. reflexivity.
 Qed.
 
